@@ -137,7 +137,10 @@ class TemplateDPADistinguisherMixin(_BaseTemplateAttackDistinguisherMixin):
         return data.shape[1]
 
     def get_template_index(self, data, i):
-        return data[:, i]
+        # Templates are stored in the order of the partitions: map each hypothesis value to the index of its class.
+        if not hasattr(self, '_value_to_template_index'):
+            self._value_to_template_index = partitioned._define_lut_func(self.partitions)
+        return self._value_to_template_index(data[:, i])
 
     @property
     def _distinguisher_str(self):
